@@ -47,9 +47,7 @@ def check(repo: Repo, rep: Report) -> None:
             ok = ok and k == ["CHECK", "APPEND"] and SC.ret_kind(p) == "InnerSubscription" \
                 and [u(a) for a in p.ret.args] == ["self", obs]
         elif stopped is True:
-            exc = p.decided("self.exception is not None")
-            if exc is None:
-                exc = p.decided("self.exception")
+            exc = SC.decided_field(sub, p, "exception")
             want = ["ERR:self.exception"] if exc else ["COMPL:"]
             ok = ok and p.kinds[1:] == want and "APPEND" not in k and SC.ret_kind(p) == "Disposable" and not p.ret.args
         else:
